@@ -86,3 +86,14 @@ Theorem C06_no_deadlock : forall (A O S : Type) (f : A -> O) (g : A -> S) szero 
   exists l s', step A O S f g sadd chunks W bad rfail ffail s l = Some s'.
 Proof. exact no_deadlock. Qed.
 Print Assumptions C06_no_deadlock.
+
+(** ... and for paired-end data (a chunk is a list of pairs, the worker function is the paired
+    pipeline model): every pair file holds what one core writes there, pair count = one-core count *)
+Theorem C06_multicore_final_paired : forall order forder p d chunks W bad rfail ffail s,
+  0 < W ->
+  reachable (list (read * read)) (list (read * read)) Z (pblock order forder p d) (pcstat order forder p) 0%Z Z.add chunks W bad rfail ffail s ->
+  finished_ok s = true ->
+  concat (written s) = PairedProofs.precords_of d (Paired.pr_files (Paired.prun order forder p (concat chunks))) /\
+  macc s = Paired.pr_n (Paired.prun order forder p (concat chunks)).
+Proof. exact multicore_final_paired. Qed.
+Print Assumptions C06_multicore_final_paired.
